@@ -39,6 +39,7 @@ def check(prog: Program, tier: str) -> Result:
     _r6_2(prog, res)
     _r6_3(prog, res)
     _r6_4(prog, res)
+    _r6_5(prog, res)
     res.floors.update({"R6.1": 5, "R6.2": 3, "R6.3": 3, "R6.4": 1})
     return res
 
@@ -242,6 +243,61 @@ def _unordered(e: ast.AST, fn: Func, depth: int = 0) -> Optional[ast.AST]:
                 return v
         return None
     return None
+
+
+def _unordered_through(e: ast.AST, fn: Func) -> Optional[ast.AST]:
+    """_unordered, also through order-preserving wrappers: core.filter_nodes(S, ..), filter(f, S), list / tuple / iter(S),
+    a comprehension over S."""
+    w = _unordered(e, fn)
+    if w is not None:
+        return w
+    if isinstance(e, ast.Call):
+        d = norm(e.func)
+        if d.endswith("filter_nodes") and e.args:
+            return _unordered_through(e.args[0], fn)
+        if d == "filter" and len(e.args) == 2:
+            return _unordered_through(e.args[1], fn)
+        if d in ("list", "tuple", "iter", "reversed") and e.args:
+            return _unordered_through(e.args[0], fn)
+    if isinstance(e, (ast.ListComp, ast.GeneratorExp)) and len(e.generators) == 1:
+        return _unordered_through(e.generators[0].iter, fn)
+    return None
+
+
+def _r6_5(prog: Program, res: Result) -> None:
+    """A loop over a set visits its elements in hash order: for strings that is the hash seed, for syntax nodes the
+    memory address (different between processes, and within one process once a cached tree was evicted and re-parsed).
+    The order is harmless as long as the iterations are independent or only accumulate commutatively (set.add, +=, a
+    dict entry keyed by the element).  A variable that is ASSIGNED in one iteration and read in a later one
+    (definite-assignment analysis, sa/loopstate.py) makes the result depend on the order: the set must be sorted first."""
+    from ..loopstate import loop_carried
+    n = 0
+    for fn in prog.funcs.values():
+        for loop in walk_own(fn.node):
+            if not isinstance(loop, ast.For):
+                continue
+            src = _unordered_through(loop.iter, fn)
+            if src is None:
+                continue
+            n += 1
+            carried = loop_carried(loop)
+            order_sensitive = {}
+            for name, node in carried.items():
+                for x in ast.walk(loop):
+                    if isinstance(x, (ast.Assign, ast.AnnAssign)):
+                        tg = x.targets if isinstance(x, ast.Assign) else [x.target]
+                        if any(isinstance(t, ast.Name) and t.id == name for t in tg) and not (isinstance(x.value, ast.Constant) and isinstance(x.value.value, bool)):
+                            order_sensitive[name] = x       # a value other than a raised flag is carried over
+            text = f"for {norm(loop.target)} in {short(loop.iter, 50)}"
+            if not order_sensitive:
+                res.ok("R6.5", fn.loc(loop), fn.fq, text, "iterations over the set are independent or accumulate commutatively", trivial=not carried)
+                continue
+            names = sorted(order_sensitive)
+            first = order_sensitive[names[0]]
+            res.bad("R6.5", fn.loc(loop), fn.fq, text,
+                    f"the loop visits a set ({short(src, 40)}) in hash / address order and carries {names} from one iteration to the next "
+                    f"(assigned at line {first.lineno}, read before being re-assigned): the result depends on the order of the set, which differs between processes")
+    res.analysed["loops_over_sets"] = n
 
 
 def _tuple_arity(e: ast.AST, fn: Func, depth: int = 0) -> Optional[ast.Tuple]:
